@@ -228,6 +228,37 @@ def sweep(ctx, n):
                 if not max(e1, e2, e3) < max(2e-6, 30 * quad_est):
                     fails.append({"key": f"first-principles:{clsx}:hull-prolongation", "desc": f"observers exactly on r = r0 beyond the end faces: field differs from the quadrature of the defining integral "
                                   f"(12 rows in one call: rel. {e1:.2g}; one at a time: {e2:.2g}; B: {e3:.2g})", "replay": {"class": clsx, "dimension": np.asarray(srcx.dimension).tolist(), "polarization": polc.tolist(), "local_observers": loc.tolist()}})
+        # observers EXACTLY on the straight continuation of a Cuboid's edges beyond the corners (two local coordinates equal to +- half a
+        # side, the third outside the body) and on the extended face planes: off the surface, finite field, equal to the quadrature
+        for _ in range(max(2, n // 12)):
+            nps = np.random.default_rng(rng.randrange(2**31))
+            dim = nps.choice([1.0, 2.0, 3.0, 4.0], 3) * nps.choice([1.0, 0.5], 3)
+            a_, b_, c_ = dim / 2
+            polc = nps.uniform(-1, 1, 3)
+            cub = magpy.magnet.Cuboid(dimension=dim, polarization=polc)
+            k_ = nps.uniform(1.3, 3.0, 6)
+            loc = np.array([[a_, b_, k_[0] * c_], [-a_, b_, -k_[1] * c_], [a_, k_[2] * b_, -c_], [k_[3] * a_, -b_, c_], [-k_[4] * a_, -b_, -c_], [a_, -k_[5] * b_, c_],
+                            [a_, 1.7 * b_, 2.1 * c_], [1.9 * a_, 0.3 * b_, c_]])
+            Hq = reference_H(cub, "Cuboid", loc, n=96)
+            scH = np.max(np.linalg.norm(Hq, axis=1)) + 1e-300
+            quad_est = float(np.max(np.abs(Hq - reference_H(cub, "Cuboid", loc, n=64))) / scH)
+            posx, orix = nps.uniform(-2, 2, 3), R.random(rng=nps)
+            for moved_ in (False, True):
+                src_ = cub.copy(position=posx, orientation=orix) if moved_ else cub
+                glob = orix.apply(loc) + posx if moved_ else loc
+                Hb = magpy.getH(src_, glob)
+                Bb = magpy.getB(src_, glob)
+                Hq_ = orix.apply(Hq) if moved_ else Hq
+                done += len(loc)
+                e1 = float(np.max(np.abs(Hb - Hq_)) / scH) if np.isfinite(Hb).all() else float("inf")
+                e3 = float(np.max(np.abs(Bb - mu_0 * Hq_)) / (mu_0 * scH)) if np.isfinite(Bb).all() else float("inf")
+                worst["Cuboid:edge-continuation"] = max(worst.get("Cuboid:edge-continuation", 0), e1, e3)
+                # a moved body sees these observers on the locus only up to round-off: there the closed form is evaluated a hair off
+                # the edge line, where it is accurate to ~1e-9 only
+                if not max(e1, e3) < max(2e-6, 30 * quad_est):
+                    fails.append({"key": "first-principles:Cuboid:edge-continuation", "desc": f"observers exactly on the continuation of a Cuboid's edges / on its extended face planes (off the surface{', body moved' if moved_ else ''}): "
+                                  f"field differs from the quadrature of the defining integral (rel. H {e1:.2g}, B {e3:.2g})", "replay": {"dimension": dim.tolist(), "polarization": polc.tolist(), "local_observers": loc.tolist(), "moved": moved_}})
+                    break
         # a body given as a surface mesh, observers on a regular interior grid aligned with the mesh (unrotated, at the
         # origin): the mesh field must equal the Cuboid closed form (itself compared with the quadrature above)
         from oracles.sources import lattice_box_case
